@@ -284,6 +284,7 @@ func netC11(s *Sink, tier string) {
 	}
 	for round := 0; round < rounds; round++ {
 		farm.DiscoveryNoise = round%2 == 1
+		farm.BlankController = true
 		u := farmClient(farm, 0, 250*time.Millisecond, nil, nil)
 		devs, err := u.GetDevices()
 		js := map[string]any{"op": "net-discovery", "noise": farm.DiscoveryNoise}
@@ -295,7 +296,7 @@ func netC11(s *Sink, tier string) {
 		for _, d := range devs {
 			got = append(got, fmt.Sprintf("%d@%v/%v", d.SerialNumber, d.IpAddress, d.Address))
 		}
-		want := []string{}
+		want := []string{fmt.Sprintf("0@0.0.0.0/0.0.0.0:%d", farm.Port)} // the blank controller answers first
 		for k := 0; k < 6; k++ {
 			want = append(want, fmt.Sprintf("%d@192.168.1.%d/192.168.1.%d:%d", 405419896+k, k+1, k+1, farm.Port))
 		}
